@@ -184,10 +184,17 @@ func C09(c *Ctx) {
 		"distinct_nontrivial = distinct (grammar, input, entrypoint) accepted by the reference parser with >=1 block event or a structured value")
 	c.Assume("error messages legitimately change under -optimize-grammar (rule prefixes, class spelling) and are not compared; actions return text, ids or label values, never a rendering of structural label values")
 	rng := rand.New(rand.NewSource(c.Seed*389 + 9))
-	n := c.N(200, 2500)
+	n := c.N(150, 2500)
 	gs := c09Strata()
 	p := optProfile()
+	tp := throwProfile()
+	tp.MaxDepth, tp.MinRules, tp.MaxRules = 3, 3, 8
+	tp.ActSpec = p.ActSpec
 	for i := 0; i < n; i++ {
+		if i%5 == 4 {
+			gs = append(gs, gast.Generate(rng, tp)) // throw/recover under the optimizer
+			continue
+		}
 		gs = append(gs, gast.Generate(rng, p))
 	}
 	entries := make([][]string, len(gs))
